@@ -143,4 +143,16 @@ def check(run, ctx):
     for lang, f in preds.items():
         users = [g for g in repo.funcs.values() if g.module is f.module and g is not f and any(is_call_named(c, "_is_countable_method") for c in ast.walk(g.node))]
         (run.ok(T6, f"{lang} predicate applied", users[0].name) if users else run.finding(T6, f"{lang} count", "predicate-unused", "_is_countable_method is not applied when counting methods", f.loc))
+    from ..linters import Linters
+    from . import shared
+
+    T7 = run.rule("T7", "SRPRule resolves its (language-dependent) configuration for every file: _load_config does not memoise on the instance", floor=1,
+                  decides="language-specific threshold overrides apply only to files of that language")
+    for rec in shared.config_memoisation(ctx, Linters(ctx)):
+        if rec["rule"] != "SRPRule":
+            continue
+        if rec["bad"]:
+            run.finding(T7, f"SRPRule.{rec['name']}", f"memoised:{rec['store']}", f"{rec['func'].qual} caches the SRPConfig of the first file ({rec['store']}); SRPConfig.from_dict resolves srp.<language>.* at parse time, so later files of other languages are judged with the wrong limits", rec["func"].loc)
+        else:
+            run.ok(T7, f"SRPRule.{rec['name']}", "configuration resolved per file (language passed to from_dict)")
     return __doc__
